@@ -108,7 +108,7 @@ CHECKS = {
     },
     "C16": {
         "text": "Coq over Model/Cache.v (bucketed CLOCK cache with murmur3 bucket choice): after every operation of every sequence the reported memory equals the total size of the held entries and there is at most one entry per key; an explicit remove is never followed by a hit. Tie: the public ClockCache API vs the model on random sequences with evictions (every hit/miss, memory_usage, eviction count, watermarks after each call) plus an implementation-side oracle (no hit after remove, usage at or below the low watermark after eviction, zero after clear). Transparency (results identical with the cache on and off; entries served only for the exact generation) is decided by execution: the C01 call sequences in all 12 persistent configurations, cache on and off, must equal the same reference map with offloaded and cached values.",
-        "note": TRUST + " Not proved: the eviction post-conditions (low watermark reached; referenced entries spared when unreferenced ones suffice) and transparency -- both only by execution; concurrent reader/writer interleavings are not explored by this check.",
+        "note": TRUST + " Eviction reaching the low watermark is proved (two CLOCK passes suffice); not proved: that referenced entries are spared when unreferenced ones suffice, and transparency -- both only by execution; concurrent reader/writer interleavings are not explored by this check.",
         "design": "DESIGN.md section 5 C16",
     },
     "C17": {
